@@ -24,6 +24,8 @@ import (
 
 	"github.com/anishathalye/porcupine"
 	"github.com/thomasjungblut/go-sstables/simpledb"
+
+	"verif/harness/cmd/racestress/c18"
 )
 
 // ---------------------------------------------------------------------------------------------
@@ -31,10 +33,16 @@ import (
 // against a register-per-key model; a sequential witness is then replayed through the Lean L6 model (`db.run`) and
 // a micro-step schedule reproducing the recorded history through the Lean L7 model (`conc.exec`).
 //
-// stream "race" (C18): the stress program cmd/racestress built with -race, run as a child per seed / GOMAXPROCS.
+// Next to every recorded history a second child (`c18child`) runs the C18 oracles of package cmd/racestress/c18 in an
+// ordinary build: returned slices are held and compared again after later Puts of the same key (single goroutine and
+// reader/writer goroutines), fresh table readers get their first value reads from 8-12 goroutines at once.
+//
+// stream "race" (C18): the stress program cmd/racestress built with -race, run as a child per seed / GOMAXPROCS; it ends
+// with the same package c18 under the race detector.
 
 func init() {
 	crashChildModes["concchild"] = concChildMain
+	crashChildModes["c18child"] = c18ChildMain
 	streams["conc"] = runConc
 	streams["race"] = runRace
 }
@@ -332,6 +340,120 @@ func concChildMain(args []string) int {
 	return 0
 }
 
+// ---- C18 in stream conc: the held-result and fresh-reader oracles of package cmd/racestress/c18 (the code stream `race`
+// runs under the race detector) in an ordinary build, one child process per case; all random choices come from the
+// package's own PRNG stream (seed ^ salt), the recorder's cases are unchanged
+
+type c18Out struct {
+	Violations []c18.Violation `json:"violations"`
+	Stats      map[string]int  `json:"stats"`
+	Ops        int64           `json:"ops"`
+	Procs      int             `json:"procs"`
+	Err        string          `json:"err"`
+}
+
+func c18ChildMain(args []string) int {
+	log.SetOutput(io.Discard)
+	fs := flag.NewFlagSet("c18child", flag.ExitOnError)
+	seed := fs.Uint64("seed", 1, "")
+	idx := fs.Uint64("idx", 0, "")
+	tier := fs.String("tier", "quick", "")
+	out := fs.String("out", "", "")
+	_ = fs.Parse(args)
+	r := NewRng(*seed^0xC18C18C18, *idx)
+	o := c18Out{Procs: []int{4, 8, 16}[r.Intn(3)]}
+	runtime.GOMAXPROCS(o.Procs)
+	held, fresh, rounds, programs := 30*time.Millisecond, 90*time.Millisecond, 150, 2
+	if *tier == "thorough" {
+		held, fresh, rounds, programs = 300*time.Millisecond, 800*time.Millisecond, 400, 6
+	}
+	base := ""
+	if st, err := os.Stat("/dev/shm"); err == nil && st.IsDir() {
+		base = "/dev/shm"
+	}
+	dir, err := os.MkdirTemp(base, "verif-conc-c18-")
+	if err != nil {
+		fmt.Fprintln(os.Stderr, "HARNESS", err)
+		return 4
+	}
+	defer os.RemoveAll(dir)
+	sink := c18.NewSink()
+	// case numbers 1.. : case 0 of a seed is what the stress program of stream `race` runs
+	cidx := *idx + 1
+	t0 := time.Now()
+	lap := func(name string) {
+		sink.Stat("ms:"+name, int(time.Since(t0).Milliseconds()))
+		t0 = time.Now()
+	}
+	err = c18.Alias(*seed, cidx, dir, programs, sink)
+	lap("alias")
+	if err == nil {
+		err = c18.Held(*seed, cidx, dir, held, sink)
+		lap("held")
+	}
+	if err == nil {
+		err = c18.Fresh(*seed, cidx, dir, fresh, rounds, sink)
+		lap("fresh")
+	}
+	if err != nil {
+		o.Err = err.Error()
+	}
+	o.Violations, o.Stats, o.Ops = sink.Violations, sink.Stats, sink.Ops
+	b, _ := json.Marshal(&o)
+	if err := os.WriteFile(*out, b, 0o644); err != nil {
+		fmt.Fprintln(os.Stderr, "HARNESS", err)
+		return 4
+	}
+	return 0
+}
+
+// runs the child and files its findings under C18
+func concC18(res *Result, seed uint64, idx int, tier string, tmp string) error {
+	out := filepath.Join(tmp, fmt.Sprintf("c18-%d.json", idx))
+	cs := fmt.Sprintf("c18child seed=%d idx=%d tier=%s", seed, idx, tier)
+	_, stderr, rc, err := runChild(180*time.Second, nil, "", selfExe(), "c18child", "--seed", fmt.Sprint(seed), "--idx", fmt.Sprint(idx), "--tier", tier, "--out", out)
+	if err != nil && rc == -1 {
+		return err
+	}
+	if rc == 4 {
+		return fmt.Errorf("c18child: %s", tail(stderr, 500))
+	}
+	if rc != 0 || err != nil {
+		sig := "c18child-crashed"
+		if m := regexp.MustCompile(`(?m)^(panic|fatal error): ([^\n]{0,80})`).FindStringSubmatch(stderr); m != nil {
+			sig = "crash:" + strings.Fields(m[2] + " x")[0]
+		}
+		if err != nil {
+			sig = "c18child-hung"
+		}
+		res.Violate(idx, "C18", sig, fmt.Sprintf("rc=%d %v stderr: %s", rc, err, tail(stderr, 1500)), cs)
+		return nil
+	}
+	b, err := os.ReadFile(out)
+	if err != nil {
+		return err
+	}
+	_ = os.Remove(out)
+	var o c18Out
+	if err := json.Unmarshal(b, &o); err != nil {
+		return err
+	}
+	if o.Err != "" {
+		return fmt.Errorf("c18child: %s", o.Err)
+	}
+	for k, v := range o.Stats {
+		if !strings.HasPrefix(k, "violations:") {
+			res.Stats["c18:"+k] += v
+		}
+	}
+	res.Stat(fmt.Sprintf("c18:procs:%d", o.Procs))
+	res.Evaluations += int(o.Ops)
+	for _, v := range o.Violations {
+		res.Violate(idx, "C18", v.Sig, v.Detail, cs+" | "+v.Input)
+	}
+	return nil
+}
+
 // ---- register-per-key model for porcupine
 
 type regState struct{ v string } // "" = absent (values are never empty)
@@ -591,7 +713,10 @@ func runConc(res *Result, drv *Driver, seed uint64, n int, tier string, only int
 	res.Rule = "recorded concurrent histories of the real DB (child process): 2–8 client goroutines issuing Get/Put/Delete (string and byte flavours) with unique values on 3–8 keys, " +
 		"tiny memstore (size-triggered rotations), a hook goroutine forcing rotations / flush waits / compaction cycles; checked with porcupine (register per key, partitioned); " +
 		"a sequential witness is replayed through the Lean L6 model and a lock-admissible micro-step schedule reproducing the recorded invocation/response order, with random background " +
-		"micro-steps injected, through the Lean L7 model; non-trivial = overlapping calls and at least one rotation or compaction during the run; distinct = distinct histories"
+		"micro-steps injected, through the Lean L7 model; non-trivial = overlapping calls and at least one rotation or compaction during the run; distinct = distinct histories; " +
+		"C18 part (child c18child per case, package cmd/racestress/c18 in an ordinary build): deterministic Get/Put/Delete programs on a memstore and a DB handle whose returned slices " +
+		"(and Put arguments) are compared again after every later step, readers holding results while writers overwrite the same keys, and a small table re-opened with every read " +
+		"option combination with 8-12 goroutines issuing their first value reads on the fresh reader behind a start barrier"
 	tmp, err := os.MkdirTemp("", "verif-conc-parent-")
 	if err != nil {
 		return err
@@ -600,12 +725,60 @@ func runConc(res *Result, drv *Driver, seed uint64, n int, tier string, only int
 	if err := concSelfTest(res); err != nil {
 		return err
 	}
+	// the C18 part of every case runs in its own child next to the recorders (two at a time); the findings are merged in
+	// case order afterwards
+	subs := make([]*Result, n)
+	suberr := make([]error, n)
+	work := make(chan int, n)
 	for idx := 0; idx < n; idx++ {
+		if only < 0 || idx == only {
+			work <- idx
+		}
+	}
+	close(work)
+	var c18wg sync.WaitGroup
+	for w := 0; w < 2; w++ {
+		c18wg.Add(1)
+		go func() {
+			defer c18wg.Done()
+			for idx := range work {
+				subs[idx] = NewResult("conc-c18", seed, tier)
+				suberr[idx] = concC18(subs[idx], seed, idx, tier, tmp)
+			}
+		}()
+	}
+	var firstErr error
+	for idx := 0; idx < n && firstErr == nil; idx++ {
 		if only >= 0 && idx != only {
 			continue
 		}
-		if err := concOne(res, drv, seed, idx, tier, tmp); err != nil {
-			return err
+		firstErr = concOne(res, drv, seed, idx, tier, tmp)
+	}
+	c18wg.Wait()
+	if firstErr != nil {
+		return firstErr
+	}
+	for idx, sub := range subs {
+		if sub == nil {
+			continue
+		}
+		if suberr[idx] != nil {
+			return suberr[idx]
+		}
+		for k, v := range sub.Stats {
+			res.Stats[k] += v
+		}
+		res.Evaluations += sub.Evaluations
+		for _, v := range sub.Violations { // at most three examples per signature (the counts are in the statistics)
+			k := 0
+			for _, w := range res.Violations {
+				if w.Property == v.Property && w.Sig == v.Sig {
+					k++
+				}
+			}
+			if k < 3 {
+				res.Violations = append(res.Violations, v)
+			}
 		}
 	}
 	return nil
@@ -945,8 +1118,13 @@ func harnessDir() string {
 		return d
 	}
 	cands := []string{}
+	// the module this binary was built from (…/harness/cmd/sstcheck/conc.go): the stress program must link the same
+	// library as the running binary (go.mod's replace directive), also when the harness is a scratch copy
+	if _, file, _, ok := runtime.Caller(0); ok && filepath.IsAbs(file) {
+		cands = append(cands, filepath.Dir(filepath.Dir(filepath.Dir(file))))
+	}
 	if exe, err := os.Executable(); err == nil {
-		cands = append(cands, filepath.Join(filepath.Dir(filepath.Dir(exe)), "harness"))
+		cands = append(cands, filepath.Join(filepath.Dir(exe), "harness"), filepath.Join(filepath.Dir(filepath.Dir(exe)), "harness"))
 	}
 	if wd, err := os.Getwd(); err == nil {
 		cands = append(cands, filepath.Join(wd, "harness"), wd)
@@ -992,6 +1170,8 @@ func raceSig(stderr string) string {
 func runRace(res *Result, drv *Driver, seed uint64, n int, tier string, only int) error {
 	res.Rule = "cmd/racestress built with `go build -race -tags verif`, one child process per (seed, GOMAXPROCS): N goroutines each hammer one SimpleDB handle (Get/Put/Delete + hook goroutine), " +
 		"one SSTableReader (Get/Contains/ScanRange/ScanStartingAt) and one MMapReader (ReadNextAt/SeekNext) at the same time; every result is compared with the single-threaded answer computed beforehand; " +
+		"afterwards (mode c18, package cmd/racestress/c18) returned slices are held and compared again while/after other goroutines overwrite the same keys, and a table is re-opened with every read option " +
+		"combination with 8-12 goroutines issuing their first value reads on the fresh reader behind a start barrier; " +
 		"a race report, a panic / crash or a wrong answer is a violation; non-trivial = all three handles exercised with forced rotations and merged compactions; distinct = distinct (seed, procs)"
 	tmp, err := os.MkdirTemp("", "verif-race-")
 	if err != nil {
@@ -1041,6 +1221,16 @@ func runRace(res *Result, drv *Driver, seed uint64, n int, tier string, only int
 					ops, _ := m["ops"].(float64)
 					res.Stats["ops:"+mode] += int(ops)
 					res.Evaluations += int(ops)
+					if mode == "c18" { // held results / fresh readers: the input classes of package c18
+						if cl, ok := m["classes"].(map[string]any); ok {
+							for k, v := range cl {
+								if f, ok := v.(float64); ok && !strings.HasPrefix(k, "violations:") {
+									res.Stats["c18:"+k] += int(f)
+								}
+							}
+						}
+						continue
+					}
 					modes++
 					if mode == "db" {
 						rotations, _ = m["rotations_forced"].(float64)
@@ -1052,6 +1242,12 @@ func runRace(res *Result, drv *Driver, seed uint64, n int, tier string, only int
 			case strings.HasPrefix(line, "MISMATCH "):
 				f := strings.SplitN(line, " ", 3)
 				res.Violate(idx, "C18", "wrong-answer:"+f[1], line, cs)
+			case strings.HasPrefix(line, "VIOLATION "):
+				var v c18.Violation
+				if json.Unmarshal([]byte(line[10:]), &v) != nil {
+					return fmt.Errorf("stress program: unparsable line %s", line)
+				}
+				res.Violate(idx, "C18", v.Sig, v.Detail, cs+" | "+v.Input)
 			case strings.HasPrefix(line, "PANIC "):
 				f := strings.SplitN(line, " ", 3)
 				res.Violate(idx, "C18", "panic:"+f[1], line, cs)
